@@ -32,6 +32,18 @@ Subset (anything else raises `TranslationError` naming function, line and constr
                naturals where the reviewed signature says so; int literals in scalar position = `ofNat n`; float literals =
                `ofNat n` when integral, else `flit mantissa decimals`.
 
+Round 4b additions (each listed with its Lean reading in design-notes/reports/T2-pybody.md, "## Round 4b"): nested `def`
+  with a reviewed signature; tuple unpacking (literal tuples, `a.transpose((2,0,1))`, `np.meshgrid`, `img.shape` of a 2-D
+  array, callees returning a pair / four naturals, `idx, = np.where(c)`); search loops (`return` inside `for`: the fold state
+  carries `Option <result>`); `for a, b in zip(..)`; `x.append(e)`; `slice(a, b)`; integer-array arithmetic; `assert`;
+  `type(x) == T` and `x.dtype is np.bool_` through reviewed primitives; string equality; module constants; kernels that fill an
+  argument (`Prim(mutates=i)`); callees that may raise (`Prim(raises=True)`: only `a, b = f(..)` and `return f(..)`); 2-D
+  window loads / stores; a LOCAL `out` array passed as `out=` is kept; comprehensions over `range(n)` / `zip(..)`; `**` through
+  the power primitive; `np.indices` as coordinate vectors; optional ints / pairs; reviewed SLICES of a body
+  (`Target.assume_none`, `Target.result_var`). Everything the value-level definitions drop (aliasing guards, `out=` plumbing,
+  guard helpers, identity casts, the tests resolved by a slice) is recorded as a comment in front of the definition and in
+  the table `<Cxx>.droppedGuards` at the end of each generated file.
+
 Trusted: this file (the meaning given to each Python construct above), the per-family primitive tables and the signatures in
 `TARGETS` (reviewed by hand, including the `while` bounds), numpy itself.
 """
@@ -1869,7 +1881,9 @@ def _dropped_table(prop: str, lines: list[str]) -> list[str]:
     out = [f'/-- Reviewer\'s table: every statement of the bodies above that the value-level definitions DROP, as',
            '    (function, kind, source text). `aliasing-guard`: `if np.may_share_memory(x, out): x = x.copy()` (no value-level',
            '    meaning: only accepted when all it guards is `x = x.copy()`); `destination-buffer`: `out=` plumbing (C09 owns that',
-           '    convention); `guard-helper`: calls of the reviewed argument checks (translator/guards.py extracts them for C09/C11). -/',
+           '    convention); `guard-helper`: calls of the reviewed argument checks (translator/guards.py extracts them for C09/C11);',
+           '    `identity-cast`: a dtype conversion that keeps every value; `slice-assumes-None`: a test of an optional parameter',
+           '    resolved by a reviewed slice of the body (Target.assume_none). -/',
            f'def {prop}.droppedGuards : List (String × String × String) :=']
     if not rows:
         return out + ['  []', '']
